@@ -31,7 +31,7 @@ func c14Key(cm *connMatrix) string {
 			}
 		}
 	}
-	return sb.String()
+	return sb.String() + c14Scalars(cm)
 }
 
 // c14Extra: every live connection's identifier points at its own slot and the lookup index agrees.
